@@ -64,7 +64,7 @@ theorem authOf_ok {H : Bytes → Bytes} {cfg : Config} {req : Request} {a : Auth
   · cases h
 
 /-- `validate` in terms of `validateSignature` once the authenticator is known. -/
-theorem validate_of_authOf_ok {σ : Type} {H : Bytes → Bytes} {cfg : Config} (P : Provider σ) (s : σ)
+theorem c04_validate_of_authOf_ok {σ : Type} {H : Bytes → Bytes} {cfg : Config} (P : Provider σ) (s : σ)
     {req : Request} {a : Authenticator} (h : authOf H cfg req = .ok a) :
     (validate H cfg P s req).calls = (validateSignature H P s a cfg.region cfg.service cfg.now).calls ∧
     (validate H cfg P s req).state = (validateSignature H P s a cfg.region cfg.service cfg.now).state ∧
